@@ -9,7 +9,12 @@ with the guard text expected for it and what the model does about it:
                 takes the `panic` branch for this site;
 * `.cross fn cond f` – guarded in another function `fn` by condition `cond` (must occur in `Gen.conds`), flag `f`;
 * `.model h`  – a `panic` branch of model function `h`, proved unreachable without any flag;
-* `.safe why` – cannot fail for the structural reason given (not modelled).
+* `.guarded`  – not modelled; safe because of the dominating guard / structural fact the extractor found for it
+                (the entry's guard text, tied to the source by `inventory_matches`), of a class that is
+                sufficient for the site's kind: a nil comparison of the dereferenced operand, a `len`/`range`
+                bound of the indexed value, the comma-ok form, a plain map read `v := m[k]` (uses of `v` are sites of their own), a deferred close of a channel made by the same
+                function, a write to a map made by the same function (`guarded_sites_checked`);
+* `.safe why` – not modelled; cannot fail for the reason argued in prose (the trusted part: `classification_counts`).
 
 `Props/C12.lean` proves (by evaluation) that table and inventory agree key by key and guard
 by guard, so a new, vanished or re-guarded site breaks the obligation, and that
@@ -25,6 +30,7 @@ inductive Clause where
   | flag (name : String)
   | cross (fn cond flag : String)
   | model (handler : String)
+  | guarded
   | safe (why : String)
   deriving DecidableEq, Repr
 
@@ -37,29 +43,29 @@ structure Entry where
 def table : List Entry := [
   ⟨"discover.serfNet.Listen|slice|member.Name[:20]", "after:len(member.Name) < 20", .flag "listenName"⟩,
   ⟨"discover.serfNet.Listen|typeassert|event.(serf.MemberEvent)", "ok", .flag "listenCast"⟩,
-  ⟨"discover.serfNet.Lookup|index|members[i]", "for:i < len(members)", .safe "index bounded by the enclosing loop condition / range"⟩,
-  ⟨"discover.serfNet.Lookup|index|members[i]#2", "for:i < len(members); after:len(members[i].Name) < 20", .safe "index bounded by the enclosing loop condition / range"⟩,
-  ⟨"discover.serfNet.Lookup|index|members[i]#3", "for:i < len(members); after:len(members[i].Name) < 20", .safe "index bounded by the enclosing loop condition / range"⟩,
-  ⟨"discover.serfNet.Lookup|index|members[i]#4", "for:i < len(members); after:len(members[i].Name) < 20; else:len(members[i].Name) == 20", .safe "index bounded by the enclosing loop condition / range"⟩,
-  ⟨"discover.serfNet.Lookup|index|members[i]#5", "for:i < len(members); after:len(members[i].Name) < 20", .safe "index bounded by the enclosing loop condition / range"⟩,
-  ⟨"discover.serfNet.Lookup|index|members[i]#6", "for:i < len(members); after:len(members[i].Name) < 20; in:nodeId == string(id) && members[i].Status == serf.StatusAlive", .safe "index bounded by the enclosing loop condition / range"⟩,
-  ⟨"discover.serfNet.Lookup|index|members[i]#7", "for:i < len(members); after:len(members[i].Name) < 20; in:nodeId == string(id) && members[i].Status == serf.StatusAlive", .safe "index bounded by the enclosing loop condition / range"⟩,
+  ⟨"discover.serfNet.Lookup|index|members[i]", "for:i < len(members)", .guarded⟩,
+  ⟨"discover.serfNet.Lookup|index|members[i]#2", "for:i < len(members); after:len(members[i].Name) < 20", .guarded⟩,
+  ⟨"discover.serfNet.Lookup|index|members[i]#3", "for:i < len(members); after:len(members[i].Name) < 20", .guarded⟩,
+  ⟨"discover.serfNet.Lookup|index|members[i]#4", "for:i < len(members); after:len(members[i].Name) < 20; else:len(members[i].Name) == 20", .guarded⟩,
+  ⟨"discover.serfNet.Lookup|index|members[i]#5", "for:i < len(members); after:len(members[i].Name) < 20", .guarded⟩,
+  ⟨"discover.serfNet.Lookup|index|members[i]#6", "for:i < len(members); after:len(members[i].Name) < 20; in:nodeId == string(id) && members[i].Status == serf.StatusAlive", .guarded⟩,
+  ⟨"discover.serfNet.Lookup|index|members[i]#7", "for:i < len(members); after:len(members[i].Name) < 20; in:nodeId == string(id) && members[i].Status == serf.StatusAlive", .guarded⟩,
   ⟨"discover.serfNet.Lookup|slice|members[i].Name[20:]", "after:len(members[i].Name) < 20; else:len(members[i].Name) == 20", .flag "lookupName"⟩,
   ⟨"discover.serfNet.Lookup|slice|members[i].Name[:20]", "after:len(members[i].Name) < 20", .flag "lookupName"⟩,
-  ⟨"discover.serfNet.MembersID|index|members[i]", "for:i < len(members)", .safe "index bounded by the enclosing loop condition / range"⟩,
-  ⟨"discover.serfNet.MembersID|index|members[i]#2", "for:i < len(members); after:len(members[i].Name) < 20", .safe "index bounded by the enclosing loop condition / range"⟩,
-  ⟨"discover.serfNet.MembersID|index|members[i]#3", "for:i < len(members); after:len(members[i].Name) < 20; else:len(members[i].Name) == 20", .safe "index bounded by the enclosing loop condition / range"⟩,
-  ⟨"discover.serfNet.MembersID|index|members[i]#4", "for:i < len(members); after:len(members[i].Name) < 20", .safe "index bounded by the enclosing loop condition / range"⟩,
-  ⟨"discover.serfNet.MembersID|index|members[i]#5", "for:i < len(members); after:len(members[i].Name) < 20", .safe "index bounded by the enclosing loop condition / range"⟩,
-  ⟨"discover.serfNet.MembersID|index|members[i]#6", "for:i < len(members); after:len(members[i].Name) < 20", .safe "index bounded by the enclosing loop condition / range"⟩,
-  ⟨"discover.serfNet.MembersID|index|members[i]#7", "for:i < len(members); after:len(members[i].Name) < 20; in:members[i].Status == serf.StatusAlive", .safe "index bounded by the enclosing loop condition / range"⟩,
+  ⟨"discover.serfNet.MembersID|index|members[i]", "for:i < len(members)", .guarded⟩,
+  ⟨"discover.serfNet.MembersID|index|members[i]#2", "for:i < len(members); after:len(members[i].Name) < 20", .guarded⟩,
+  ⟨"discover.serfNet.MembersID|index|members[i]#3", "for:i < len(members); after:len(members[i].Name) < 20; else:len(members[i].Name) == 20", .guarded⟩,
+  ⟨"discover.serfNet.MembersID|index|members[i]#4", "for:i < len(members); after:len(members[i].Name) < 20", .guarded⟩,
+  ⟨"discover.serfNet.MembersID|index|members[i]#5", "for:i < len(members); after:len(members[i].Name) < 20", .guarded⟩,
+  ⟨"discover.serfNet.MembersID|index|members[i]#6", "for:i < len(members); after:len(members[i].Name) < 20", .guarded⟩,
+  ⟨"discover.serfNet.MembersID|index|members[i]#7", "for:i < len(members); after:len(members[i].Name) < 20; in:members[i].Status == serf.StatusAlive", .guarded⟩,
   ⟨"discover.serfNet.MembersID|slice|members[i].Name[20:]", "after:len(members[i].Name) < 20; else:len(members[i].Name) == 20", .flag "lookupName"⟩,
-  ⟨"discover.serfNet.MembersIP|index|members[i]", "for:i < len(members)", .safe "index bounded by the enclosing loop condition / range"⟩,
-  ⟨"discover.serfNet.MembersIP|index|members[i]#2", "for:i < len(members); in:members[i].Name != s._serf.LocalMember().Name", .safe "index bounded by the enclosing loop condition / range"⟩,
-  ⟨"discover.serfNet.NumOfPeers|index|members[i]", "for:i < len(members)", .safe "index bounded by the enclosing loop condition / range"⟩,
-  ⟨"discover.serfNet.NumOfPeers|index|members[i]#2", "for:i < len(members); and:members[i].Status == serf.StatusAlive", .safe "index bounded by the enclosing loop condition / range"⟩,
+  ⟨"discover.serfNet.MembersIP|index|members[i]", "for:i < len(members)", .guarded⟩,
+  ⟨"discover.serfNet.MembersIP|index|members[i]#2", "for:i < len(members); in:members[i].Name != s._serf.LocalMember().Name", .guarded⟩,
+  ⟨"discover.serfNet.NumOfPeers|index|members[i]", "for:i < len(members)", .guarded⟩,
+  ⟨"discover.serfNet.NumOfPeers|index|members[i]#2", "for:i < len(members); and:members[i].Status == serf.StatusAlive", .guarded⟩,
   ⟨"dkg.DistKeyGenerator.DistKeyShare|deref|deal.SecShare.V", "", .model "distKeyShare: every aggregator stores a deal whose share has a value (dkgRun_good, distKeyShare_total)"⟩,
-  ⟨"dkg.DistKeyGenerator.DistKeyShare|deref|pub.Add", "after:pub == nil", .safe "identifier the function compares with nil; that comparison dominates this use"⟩,
+  ⟨"dkg.DistKeyGenerator.DistKeyShare|deref|pub.Add", "after:pub == nil", .guarded⟩,
   ⟨"dkg.DistKeyGenerator.DistKeyShare|deref|pub.Info", "", .safe "DistKeyShare returned above unless Certified, so qualIter visited at least one dealer and set pub"⟩,
   ⟨"dkg.DistKeyGenerator.DistKeyShare|ifacenil|deal.SecShare.V", "", .model "distKeyShare: every aggregator stores a deal whose share has a value (dkgRun_good, distKeyShare_total)"⟩,
   ⟨"dkg.DistKeyGenerator.ProcessDeal|deref|dd.Index", "", .safe "dd is the result of a comma-ok assertion on a message built by ptypes.UnmarshalAny: never a nil pointer"⟩,
@@ -69,37 +75,47 @@ def table : List Entry := [
   ⟨"dkg.DistKeyGenerator.ProcessResponse|mapzero|d.verifiers[resp.Index]", "ok", .flag "respVerOk"⟩,
   ⟨"dkg.decodePubKey|index|pubKeyCoor[i]", "for:i < 4", .safe "[4]*big.Int indexed by i < 4"⟩,
   ⟨"dkg.decodePubKey|slice|pubKeyMar[32*i+1 : 32*i+33]", "after:len(pubKeyMar) < 32*4+1; for:i < 4", .flag "pubKeyLen"⟩,
-  ⟨"dkg.exchangePub|close|close(errc)", "", .safe "deferred close of a channel this stage created: executed once"⟩,
-  ⟨"dkg.exchangePub|close|close(out)", "", .safe "deferred close of a channel this stage created: executed once"⟩,
+  ⟨"dkg.exchangePub|close|close(errc)", "defer; made:errc", .guarded⟩,
+  ⟨"dkg.exchangePub|close|close(out)", "defer; made:out", .guarded⟩,
+  ⟨"dkg.exchangePub|deref|pubkey.Index", "or:pubkey == nil || pubkey.Publickey == nil", .guarded⟩,
+  ⟨"dkg.exchangePub|deref|pubkey.Index#2", "or:pubkey == nil || pubkey.Publickey == nil || int(pubkey.Index) >= len(groupIds)", .guarded⟩,
+  ⟨"dkg.exchangePub|deref|pubkey.Publickey", "or:pubkey == nil", .guarded⟩,
+  ⟨"dkg.exchangePub|deref|pubkey.Publickey#2", "or:pubkey == nil || pubkey.Publickey == nil || int(pubkey.Index) >= len(groupIds)", .guarded⟩,
+  ⟨"dkg.exchangePub|deref|pubkey.Publickey.SenderId", "or:pubkey == nil || pubkey.Publickey == nil || int(pubkey.Index) >= len(groupIds)", .flag "xpubIdx"⟩,
+  ⟨"dkg.exchangePub|index|groupIds[pubkey.Index]", "or:pubkey == nil || pubkey.Publickey == nil || int(pubkey.Index) >= len(groupIds)", .flag "xpubIdx"⟩,
   ⟨"dkg.exchangePub|typeassert|resp.(*PublicKey)", "ok", .flag "xpubCastSelf"⟩,
   ⟨"dkg.exchangePub|typeassert|resp.(*PublicKey)#2", "ok", .flag "xpubCastPeer"⟩,
   ⟨"dkg.findPub|index|list[i]", "after:i >= uint32(len(list))", .flag "findPubDkg"⟩,
-  ⟨"dkg.genDistKeyGenerator|close|close(errc)", "", .safe "deferred close of a channel this stage created: executed once"⟩,
-  ⟨"dkg.genDistKeyGenerator|close|close(out)", "", .safe "deferred close of a channel this stage created: executed once"⟩,
+  ⟨"dkg.genDistKeyGenerator|close|close(errc)", "defer; made:errc", .guarded⟩,
+  ⟨"dkg.genDistKeyGenerator|close|close(out)", "defer; made:out", .guarded⟩,
+  ⟨"dkg.genDistKeyGenerator|deref|other.Equal", "and:other != nil && uint32(k) != pubkey.Index", .guarded⟩,
   ⟨"dkg.genDistKeyGenerator|deref|pubkey.Index", "or:pubkey == nil || pubkey.Publickey == nil", .flag "gdkgGuard"⟩,
   ⟨"dkg.genDistKeyGenerator|deref|pubkey.Index#2", "after:pubkey == nil || pubkey.Publickey == nil || pubkey.Index >= uint32(len(pubPoints))", .flag "gdkgGuard"⟩,
   ⟨"dkg.genDistKeyGenerator|deref|pubkey.Index#3", "after:pubkey == nil || pubkey.Publickey == nil || pubkey.Index >= uint32(len(pubPoints))", .flag "gdkgGuard"⟩,
   ⟨"dkg.genDistKeyGenerator|deref|pubkey.Index#4", "after:pubkey == nil || pubkey.Publickey == nil || pubkey.Index >= uint32(len(pubPoints))", .flag "gdkgGuard"⟩,
+  ⟨"dkg.genDistKeyGenerator|deref|pubkey.Index#5", "after:pubkey == nil || pubkey.Publickey == nil || pubkey.Index >= uint32(len(pubPoints))", .flag "gdkgGuard"⟩,
+  ⟨"dkg.genDistKeyGenerator|deref|pubkey.Index#6", "after:pubkey == nil || pubkey.Publickey == nil || pubkey.Index >= uint32(len(pubPoints))", .flag "gdkgGuard"⟩,
   ⟨"dkg.genDistKeyGenerator|deref|pubkey.Publickey", "or:pubkey == nil", .flag "gdkgGuard"⟩,
   ⟨"dkg.genDistKeyGenerator|deref|pubkey.Publickey#2", "after:pubkey == nil || pubkey.Publickey == nil || pubkey.Index >= uint32(len(pubPoints))", .flag "gdkgGuard"⟩,
   ⟨"dkg.genDistKeyGenerator|deref|pubkey.Publickey.Binary", "after:pubkey == nil || pubkey.Publickey == nil || pubkey.Index >= uint32(len(pubPoints))", .flag "gdkgGuard"⟩,
   ⟨"dkg.genDistKeyGenerator|index|pubPoints[pubkey.Index]", "after:pubkey == nil || pubkey.Publickey == nil || pubkey.Index >= uint32(len(pubPoints))", .flag "gdkgGuard"⟩,
   ⟨"dkg.genDistKeyGenerator|index|pubPoints[pubkey.Index]#2", "after:pubkey == nil || pubkey.Publickey == nil || pubkey.Index >= uint32(len(pubPoints)); after:pubPoints[pubkey.Index] != nil", .flag "gdkgGuard"⟩,
   ⟨"dkg.genDistKeyGenerator|index|pubPoints[pubkey.Index]#3", "after:pubkey == nil || pubkey.Publickey == nil || pubkey.Index >= uint32(len(pubPoints)); after:pubPoints[pubkey.Index] != nil", .flag "gdkgGuard"⟩,
+  ⟨"dkg.genDistKeyGenerator|index|pubPoints[pubkey.Index]#4", "after:pubkey == nil || pubkey.Publickey == nil || pubkey.Index >= uint32(len(pubPoints)); after:pubPoints[pubkey.Index] != nil; and:other != nil && uint32(k) != pubkey.Index", .flag "gdkgGuard"⟩,
   ⟨"dkg.genDistKeyGenerator|make|make([]kyber.Point, numOfPubkeys)", "", .safe "numOfPubkeys = len(groupIds) of a local call"⟩,
-  ⟨"dkg.genGroup|close|close(errc)", "", .safe "deferred close of a channel this stage created: executed once"⟩,
-  ⟨"dkg.genGroup|close|close(out)", "", .safe "deferred close of a channel this stage created: executed once"⟩,
+  ⟨"dkg.genGroup|close|close(errc)", "defer; made:errc", .guarded⟩,
+  ⟨"dkg.genGroup|close|close(out)", "defer; made:out", .guarded⟩,
   ⟨"dkg.genGroup|slice|dataReturn[1:]", "", .safe "[5]*big.Int"⟩,
   ⟨"dkg.genGroup|slice|pubKeyCoor[:]", "", .safe "[4]*big.Int"⟩,
-  ⟨"dkg.getAndProcessDeals|close|close(dkgOut)", "", .safe "deferred close of a channel this stage created: executed once"⟩,
-  ⟨"dkg.getAndProcessDeals|close|close(errc)", "", .safe "deferred close of a channel this stage created: executed once"⟩,
-  ⟨"dkg.getAndProcessDeals|close|close(out)", "", .safe "deferred close of a channel this stage created: executed once"⟩,
+  ⟨"dkg.getAndProcessDeals|close|close(dkgOut)", "defer; made:dkgOut", .guarded⟩,
+  ⟨"dkg.getAndProcessDeals|close|close(errc)", "defer; made:errc", .guarded⟩,
+  ⟨"dkg.getAndProcessDeals|close|close(out)", "defer; made:out", .guarded⟩,
   ⟨"dkg.getAndProcessDeals|deref|dkg.ProcessDeal", "after:dkg == nil", .flag "dealsDkgNil"⟩,
   ⟨"dkg.getAndProcessDeals|deref|dkg.ProcessDeal(deal)", "after:dkg == nil", .flag "dealsDkgNil"⟩,
   ⟨"dkg.getAndProcessDeals|deref|resp.Response.Status", "", .safe "ProcessDeal returns err == nil only with Response set to the non-nil result of ProcessEncryptedDeal"⟩,
   ⟨"dkg.getAndProcessDeals|typeassert|d.(*Deal)", "ok", .flag "dealsCast"⟩,
-  ⟨"dkg.getAndProcessResponses|close|close(errc)", "", .safe "deferred close of a channel this stage created: executed once"⟩,
-  ⟨"dkg.getAndProcessResponses|close|close(out)", "", .safe "deferred close of a channel this stage created: executed once"⟩,
+  ⟨"dkg.getAndProcessResponses|close|close(errc)", "defer; made:errc", .guarded⟩,
+  ⟨"dkg.getAndProcessResponses|close|close(out)", "defer; made:out", .guarded⟩,
   ⟨"dkg.getAndProcessResponses|deref|dkg.ProcessResponse", "after:dkg == nil", .flag "respsDkgNil"⟩,
   ⟨"dkg.getAndProcessResponses|deref|dkg.ProcessResponse(resp)", "after:dkg == nil", .flag "respsDkgNil"⟩,
   ⟨"dkg.getAndProcessResponses|typeassert|r.(*Response)", "ok", .flag "respsCast"⟩,
@@ -107,22 +123,22 @@ def table : List Entry := [
   ⟨"dkg.handlePeerMsg|deref|r.Response.Index", "in:ok && r.Response != nil", .flag "peerRespNil"⟩,
   ⟨"dkg.handlePeerMsg|deref|respFromPeer.Response.Index", "in:respFromPeer.Response != nil", .flag "peerRespNil"⟩,
   ⟨"dkg.handlePeerMsg|mapwrite|sessionMap[sessionID]", "", .safe "maps made in Loop"⟩,
-  ⟨"dkg.handlePeerMsg|mapzero|sessionMap[sessionID]", "", .safe "a missing entry is a nil slice: ranging over it and len are fine"⟩,
-  ⟨"dkg.handlePeerMsg|mapzero|sessionMap[sessionID]#2", "", .safe "a missing entry is a nil slice: ranging over it and len are fine"⟩,
+  ⟨"dkg.handlePeerMsg|mapzero|sessionMap[sessionID]", "read", .guarded⟩,
+  ⟨"dkg.handlePeerMsg|mapzero|sessionMap[sessionID]#2", "read", .guarded⟩,
   ⟨"dkg.handlePeerMsg|mapzero|sessionReq[sessionID].ctx", "in:len(sessionMap[sessionID]) == sessionReq[sessionID].numOfResps", .model "handlePeerMsg: the zero-value request (numOfResps 0, nil ctx) is never selected because the buffer has ≥ 1 element after the append (sess_total)"⟩,
   ⟨"dkg.handlePeerMsg|mapzero|sessionReq[sessionID].numOfResps", "", .safe "reading a field of the zero value"⟩,
   ⟨"dkg.handlePeerMsg|mapzero|sessionReq[sessionID].reply", "in:len(sessionMap[sessionID]) == sessionReq[sessionID].numOfResps", .model "same branch as .ctx"⟩,
   ⟨"dkg.handlePeerMsg|mapzero|sessionReq[sessionID].reply#2", "in:len(sessionMap[sessionID]) == sessionReq[sessionID].numOfResps", .model "same branch as .ctx"⟩,
-  ⟨"dkg.handlePeerMsg|typeassert|dd.(*Deal)", "ok", .safe "comma-ok"⟩,
-  ⟨"dkg.handlePeerMsg|typeassert|p.(*PublicKey)", "ok", .safe "comma-ok"⟩,
-  ⟨"dkg.handlePeerMsg|typeassert|rr.(*Response)", "ok", .safe "comma-ok"⟩,
+  ⟨"dkg.handlePeerMsg|typeassert|dd.(*Deal)", "ok", .guarded⟩,
+  ⟨"dkg.handlePeerMsg|typeassert|p.(*PublicKey)", "ok", .guarded⟩,
+  ⟨"dkg.handlePeerMsg|typeassert|rr.(*Response)", "ok", .guarded⟩,
   ⟨"dkg.handleRequest|close|close(req.reply)", "", .model "sessStep: fresh channel of this request, closed once (sess_total)"⟩,
   ⟨"dkg.handleRequest|mapwrite|sessionReq[req.sessionID]", "", .safe "maps made in Loop"⟩,
   ⟨"dkg.handleRequest|mapzero|sessionReq[req.sessionID].ctx", "", .safe "entry written by the first statement of the function"⟩,
   ⟨"dkg.handleRequest|mapzero|sessionReq[req.sessionID].reply", "", .safe "entry written by the first statement of the function"⟩,
   ⟨"dkg.initDistKeyGenerator|ifaceslot|p.Equal(pub)", "", .model "newDkg: no empty participant slot after n distinct in-range indices (genDkg_total)"⟩,
   ⟨"dkg.pdkg.Loop|close|close(req.reply)", "", .model "expire (sessStep .expire): the sweep closes the reply channel of a registration that is in the map and deletes it in the same step; registrations in the map have open, pairwise distinct channels (SessInv), so never a second close (session_layer_total)"⟩,
-  ⟨"dkg.pdkg.Loop|typeassert|req.(request)", "ok", .safe "comma-ok; local channel"⟩,
+  ⟨"dkg.pdkg.Loop|typeassert|req.(request)", "ok", .guarded⟩,
   ⟨"dosnode.DosNode.handleCR|callpanics|rand.Int(rand.Reader, randSeed)", "fix:randSeed.Cmp(big.NewInt(1)) == -1", .flag "crRand"⟩,
   ⟨"dosnode.DosNode.handleCR|deref|*hash", "", .safe "byte32 of the 32-byte Keccak digest is non-nil (byte32Len)"⟩,
   ⟨"dosnode.DosNode.handleCR|deref|cr.Cid", "", .safe "event structs are built by the contract binding in onchain: non-nil"⟩,
@@ -136,43 +152,43 @@ def table : List Entry := [
   ⟨"dosnode.DosNode.handleQuery|slice|nHash[:]", "", .safe "[32]byte array"⟩,
   ⟨"dosnode.DosNode.handleQuery|slice|nHash[:]#2", "", .safe "[32]byte array"⟩,
   ⟨"dosnode.DosNode.handleQuery|slice|nHash[:]#3", "", .safe "[32]byte array"⟩,
-  ⟨"dosnode.DosNode.onchainLoop|mapwrite|inactiveNodes[event.NodeID]", "", .safe "map created by make in the same function or in the constructor"⟩,
-  ⟨"dosnode.DosNode.onchainLoop|mapwrite|inactiveNodes[event.NodeID]#2", "", .safe "map created by make in the same function or in the constructor"⟩,
-  ⟨"dosnode.DosNode.onchainLoop|mapwrite|inactiveNodes[nodeID]", "", .safe "map created by make in the same function or in the constructor"⟩,
+  ⟨"dosnode.DosNode.onchainLoop|mapwrite|inactiveNodes[event.NodeID]", "made:inactiveNodes", .guarded⟩,
+  ⟨"dosnode.DosNode.onchainLoop|mapwrite|inactiveNodes[event.NodeID]#2", "made:inactiveNodes", .guarded⟩,
+  ⟨"dosnode.DosNode.onchainLoop|mapwrite|inactiveNodes[nodeID]", "made:inactiveNodes", .guarded⟩,
   ⟨"dosnode.DosNode.onchainLoop|mapzero|inactiveNodes[event.NodeID].IsZero", "", .safe "method of the zero time.Time"⟩,
   ⟨"dosnode.DosNode.queryLoop|close|close(req.reply)", "", .safe "channel life-cycle of the collector is C14's (F15)"⟩,
   ⟨"dosnode.DosNode.queryLoop|ifacenil|req.ctx.Done()", "", .safe "watchdog: req ranges over registered requests, whose ctx is set by dispatchSign"⟩,
   ⟨"dosnode.DosNode.queryLoop|ifacenil|req.ctx.Done()#2", "", .safe "req is the comma-ok result of the map read two lines above (qloopOk)"⟩,
   ⟨"dosnode.DosNode.queryLoop|ifacenil|req.ctx.Done()#3", "", .safe "req was just received from the local registration channel"⟩,
-  ⟨"dosnode.DosNode.queryLoop|mapwrite|bufSign[req.requestID]", "", .safe "map created by make in the same function or in the constructor"⟩,
-  ⟨"dosnode.DosNode.queryLoop|mapwrite|bufSign[requestID]", "", .safe "map created by make in the same function or in the constructor"⟩,
-  ⟨"dosnode.DosNode.queryLoop|mapwrite|reqSign[req.requestID]", "", .safe "map created by make in the same function or in the constructor"⟩,
-  ⟨"dosnode.DosNode.queryLoop|mapzero|bufSign[req.requestID]", "", .safe "a missing entry is a nil slice"⟩,
+  ⟨"dosnode.DosNode.queryLoop|mapwrite|bufSign[req.requestID]", "made:bufSign", .guarded⟩,
+  ⟨"dosnode.DosNode.queryLoop|mapwrite|bufSign[requestID]", "made:bufSign", .guarded⟩,
+  ⟨"dosnode.DosNode.queryLoop|mapwrite|reqSign[req.requestID]", "made:reqSign", .guarded⟩,
+  ⟨"dosnode.DosNode.queryLoop|mapzero|bufSign[req.requestID]", "read", .guarded⟩,
   ⟨"dosnode.DosNode.queryLoop|mapzero|reqSign[requestID]", "ok", .flag "qloopOk"⟩,
   ⟨"dosnode.DosNode.queryLoop|typeassert|msg.Msg.Message.(*vss.Signature)", "ok", .flag "qloopCast"⟩,
   ⟨"dosnode.byte32|index|s[0]", "in:len(a) <= len(s)", .flag "byte32Len"⟩,
-  ⟨"dosnode.choseSubmitter|close|close(errc)", "", .safe "deferred close of a channel this stage created: executed once"⟩,
-  ⟨"dosnode.choseSubmitter|close|close(out)", "", .safe "deferred close of a channel this stage created: executed once"⟩,
+  ⟨"dosnode.choseSubmitter|close|close(errc)", "defer; made:errc", .guarded⟩,
+  ⟨"dosnode.choseSubmitter|close|close(out)", "", .safe "out ranges over the channels this function made, each closed once after the sends"⟩,
   ⟨"dosnode.choseSubmitter|deref|lastSysRand.Uint64()", "", .safe "ABI-decoded *big.Int: non-nil"⟩,
   ⟨"dosnode.choseSubmitter|div|lastSysRand.Uint64() % uint64(len(ids))", "", .cross "dosnode.DosNode.groupInfo" "len(ids) == 0 || pubPoly == nil || sec == nil" "groupInfoIds"⟩,
   ⟨"dosnode.choseSubmitter|index|ids[submitter]", "", .safe "submitter = x % len(ids) < len(ids)"⟩,
-  ⟨"dosnode.dispatchSign|close|close(out)", "", .safe "deferred close of a channel this stage created: executed once"⟩,
-  ⟨"dosnode.dispatchSign|close|close(out)#2", "", .safe "deferred close of a channel this stage created: executed once"⟩,
-  ⟨"dosnode.dispatchSign|close|close(out)#3", "", .safe "deferred close of a channel this stage created: executed once"⟩,
-  ⟨"dosnode.dispatchSign|close|close(out)#4", "", .safe "deferred close of a channel this stage created: executed once"⟩,
-  ⟨"dosnode.dispatchSign|close|close(out)#5", "", .safe "deferred close of a channel this stage created: executed once"⟩,
-  ⟨"dosnode.dispatchSign|close|close(out)#6", "", .safe "deferred close of a channel this stage created: executed once"⟩,
-  ⟨"dosnode.genQueryResult|close|close(errc)", "", .safe "deferred close of a channel this stage created: executed once"⟩,
-  ⟨"dosnode.genQueryResult|close|close(out)", "", .safe "deferred close of a channel this stage created: executed once"⟩,
-  ⟨"dosnode.genSysRandom|close|close(out)", "", .safe "deferred close of a channel this stage created: executed once"⟩,
-  ⟨"dosnode.genUserRandom|close|close(out)", "", .safe "deferred close of a channel this stage created: executed once"⟩,
+  ⟨"dosnode.dispatchSign|close|close(out)", "made:out", .safe "channel life-cycle of dispatchSign and the collector is C14\'s (F15, repaired in aee7ef3): closed on exactly one of its exits"⟩,
+  ⟨"dosnode.dispatchSign|close|close(out)#2", "made:out", .safe "channel life-cycle of dispatchSign and the collector is C14\'s (F15, repaired in aee7ef3): closed on exactly one of its exits"⟩,
+  ⟨"dosnode.dispatchSign|close|close(out)#3", "made:out", .safe "channel life-cycle of dispatchSign and the collector is C14\'s (F15, repaired in aee7ef3): closed on exactly one of its exits"⟩,
+  ⟨"dosnode.dispatchSign|close|close(out)#4", "made:out", .safe "channel life-cycle of dispatchSign and the collector is C14\'s (F15, repaired in aee7ef3): closed on exactly one of its exits"⟩,
+  ⟨"dosnode.dispatchSign|close|close(out)#5", "made:out", .safe "channel life-cycle of dispatchSign and the collector is C14\'s (F15, repaired in aee7ef3): closed on exactly one of its exits"⟩,
+  ⟨"dosnode.dispatchSign|close|close(out)#6", "made:out", .safe "channel life-cycle of dispatchSign and the collector is C14\'s (F15, repaired in aee7ef3): closed on exactly one of its exits"⟩,
+  ⟨"dosnode.genQueryResult|close|close(errc)", "defer; made:errc", .guarded⟩,
+  ⟨"dosnode.genQueryResult|close|close(out)", "defer; made:out", .guarded⟩,
+  ⟨"dosnode.genSysRandom|close|close(out)", "defer; made:out", .guarded⟩,
+  ⟨"dosnode.genUserRandom|close|close(out)", "defer; made:out", .guarded⟩,
   ⟨"dosnode.padOrTrim|make|make([]byte, size)", "after:l == size; after:l > size", .safe "size is the constant randNumberSize at the only call site, and l < size here"⟩,
   ⟨"dosnode.padOrTrim|slice|bb[l-size:]", "after:l == size; in:l > size", .safe "l > size"⟩,
   ⟨"dosnode.padOrTrim|slice|tmp[size-l:]", "after:l == size; after:l > size", .safe "l < size"⟩,
-  ⟨"dosnode.recoverSign|close|close(errc)", "", .safe "deferred close of a channel this stage created: executed once"⟩,
-  ⟨"dosnode.recoverSign|close|close(out)", "", .safe "deferred close of a channel this stage created: executed once"⟩,
-  ⟨"dosnode.recoverSign|deref|own.Content", "else:own == nil", .safe "else branch of `own == nil`"⟩,
-  ⟨"dosnode.recoverSign|deref|own.Index", "else:own == nil", .safe "else branch of `own == nil`"⟩,
+  ⟨"dosnode.recoverSign|close|close(errc)", "defer; made:errc", .guarded⟩,
+  ⟨"dosnode.recoverSign|close|close(out)", "defer; made:out", .guarded⟩,
+  ⟨"dosnode.recoverSign|deref|own.Content", "else:own == nil", .guarded⟩,
+  ⟨"dosnode.recoverSign|deref|own.Index", "else:own == nil", .guarded⟩,
   ⟨"dosnode.recoverSign|deref|sign.Content", "or:sign == nil || sign.Signature == nil", .flag "rsNil"⟩,
   ⟨"dosnode.recoverSign|deref|sign.Content#2", "after:sign == nil || sign.Signature == nil || sign.Content == nil", .flag "rsNil"⟩,
   ⟨"dosnode.recoverSign|deref|sign.Content#3", "after:sign == nil || sign.Signature == nil || sign.Content == nil", .flag "rsNil"⟩,
@@ -187,19 +203,19 @@ def table : List Entry := [
   ⟨"dosnode.recoverSign|deref|sign.ToBigInt", "after:sign == nil || sign.Signature == nil || sign.Content == nil", .flag "rsNil"⟩,
   ⟨"dosnode.recoverSign|deref|sign.ToBigInt()", "after:sign == nil || sign.Signature == nil || sign.Content == nil", .flag "rsNil"⟩,
   ⟨"dosnode.recoverSign|make|make([]byte, t)", "after:sign == nil || sign.Signature == nil || sign.Content == nil; after:t < 0", .flag "rsMake"⟩,
-  ⟨"dosnode.reportQueryResult|close|close(errc)", "", .safe "deferred close of a channel this stage created: executed once"⟩,
-  ⟨"p2p.client.decodePipe|close|close(receivedMsg)", "", .safe "deferred close of a channel this stage created: executed once"⟩,
-  ⟨"p2p.client.decodePipe|close|close(replyMsg)", "", .safe "deferred close of a channel this stage created: executed once"⟩,
+  ⟨"dosnode.reportQueryResult|close|close(errc)", "defer; made:errc", .guarded⟩,
+  ⟨"p2p.client.decodePipe|close|close(receivedMsg)", "defer; made:receivedMsg", .guarded⟩,
+  ⟨"p2p.client.decodePipe|close|close(replyMsg)", "defer; made:replyMsg", .guarded⟩,
   ⟨"p2p.client.decodePipe|deref|pa.GetAnything().Value", "", .cross "p2p.decodeBytes" "pa.GetAnything() == nil" "anyNil"⟩,
   ⟨"p2p.client.decryptPipe|callpanics|aesgcm.Open(nil, c.dhNonce, text, nil)", "", .safe "c.dhNonce = dhBytes[32:44] (12 bytes) is set together with the 32-byte c.dhKey; with no key aes.NewCipher fails first (ridLen)"⟩,
-  ⟨"p2p.client.decryptPipe|close|close(out)", "", .safe "deferred close of a channel this stage created: executed once"⟩,
-  ⟨"p2p.client.dispatch|close|close(out)", "", .safe "deferred close of a channel this stage created: executed once"⟩,
+  ⟨"p2p.client.decryptPipe|close|close(out)", "defer; made:out", .guarded⟩,
+  ⟨"p2p.client.dispatch|close|close(out)", "defer; made:out", .guarded⟩,
   ⟨"p2p.client.dispatch|deref|p2pRequest.ctx", "in:p2pRequest != nil", .flag "dispReplyNil"⟩,
   ⟨"p2p.client.dispatch|deref|p2pRequest.replyResult", "in:p2pRequest != nil", .flag "dispReplyNil"⟩,
-  ⟨"p2p.client.dispatch|mapwrite|requests[nonce]", "", .safe "map created by make in the same function or in the constructor"⟩,
-  ⟨"p2p.client.dispatch|mapzero|requests[msg.RequestNonce]", "", .safe "the nil result for an absent nonce is handled at its two uses (dispReplyNil)"⟩,
-  ⟨"p2p.client.readPipe|close|close(out)", "", .safe "deferred close of a channel this stage created: executed once"⟩,
-  ⟨"p2p.client.receiveID|close|close(errc)", "", .safe "deferred close of a channel this stage created: executed once"⟩,
+  ⟨"p2p.client.dispatch|mapwrite|requests[nonce]", "made:requests", .guarded⟩,
+  ⟨"p2p.client.dispatch|mapzero|requests[msg.RequestNonce]", "read", .guarded⟩,
+  ⟨"p2p.client.readPipe|close|close(out)", "defer; made:out", .guarded⟩,
+  ⟨"p2p.client.receiveID|close|close(errc)", "defer; made:errc", .guarded⟩,
   ⟨"p2p.client.receiveID|slice|dhBytes[0:32]", "after:len(dhBytes) < 44", .flag "ridLen"⟩,
   ⟨"p2p.client.receiveID|slice|dhBytes[32:44]", "after:len(dhBytes) < 44", .flag "ridLen"⟩,
   ⟨"p2p.client.receiveID|typeassert|ptr.Message.(*ID)", "ok", .flag "ridCast"⟩,
@@ -210,49 +226,49 @@ def table : List Entry := [
   ⟨"p2p.readFrom|slice|header[totalBytesRead:]", "for:totalBytesRead < headerSize && err == nil", .safe "loop condition: offset < len"⟩,
   ⟨"p2p.server.eventDispatch|close|close(eventCh)", "", .safe "shutdown path: each subscription channel once"⟩,
   ⟨"p2p.server.eventDispatch|close|close(subscriptions[subID])", "", .safe "local API: UnSubscribeEvent with the id SubscribeEvent returned"⟩,
-  ⟨"p2p.server.eventDispatch|mapwrite|subscriptions[sub.subID]", "", .safe "map created by make in the same function or in the constructor"⟩,
+  ⟨"p2p.server.eventDispatch|mapwrite|subscriptions[sub.subID]", "made:subscriptions", .guarded⟩,
   ⟨"p2p.server.messageDispatch|close|close(outch)", "", .safe "shutdown path, nil-checked"⟩,
   ⟨"p2p.server.messageDispatch|ifacenil|reflect.TypeOf(msg.Msg.Message).String()", "after:msg.Msg.Message == nil", .flag "mdNil"⟩,
-  ⟨"p2p.server.messageDispatch|index|messagetype[0]", "and:len(messagetype) > 0", .safe "guarded by len(messagetype) > 0 in the same condition"⟩,
-  ⟨"p2p.server.messageDispatch|mapwrite|subscriptions[sub.msgType]", "", .safe "map created by make in the same function or in the constructor"⟩,
-  ⟨"p2p.server.messageDispatch|mapzero|subscriptions[messagetype]", "", .safe "nil-checked: `out != nil`"⟩,
-  ⟨"p2p.server.messageDispatch|slice|messagetype[1:]", "in:len(messagetype) > 0 && messagetype[0] == '*'", .safe "inside len(messagetype) > 0"⟩,
+  ⟨"p2p.server.messageDispatch|index|messagetype[0]", "and:len(messagetype) > 0", .guarded⟩,
+  ⟨"p2p.server.messageDispatch|mapwrite|subscriptions[sub.msgType]", "made:subscriptions", .guarded⟩,
+  ⟨"p2p.server.messageDispatch|mapzero|subscriptions[messagetype]", "read", .guarded⟩,
+  ⟨"p2p.server.messageDispatch|slice|messagetype[1:]", "in:len(messagetype) > 0 && messagetype[0] == '*'", .guarded⟩,
   ⟨"p2p.server.receiveHandler|deref|c.close", "", .safe "c is the client handed over by the accept goroutine after a finished handshake (non-nil); the nil comparison in this function is about the shadowing c of the removal branch"⟩,
   ⟨"p2p.server.receiveHandler|deref|c.remoteID", "", .safe "c is the client handed over by the accept goroutine after a finished handshake (non-nil); the nil comparison in this function is about the shadowing c of the removal branch"⟩,
   ⟨"p2p.server.receiveHandler|deref|c.remoteID#2", "", .safe "c is the client handed over by the accept goroutine after a finished handshake (non-nil); the nil comparison in this function is about the shadowing c of the removal branch"⟩,
   ⟨"p2p.server.receiveHandler|deref|client.close", "", .safe "client ranges over the values of clients, which are only stored non-nil"⟩,
-  ⟨"p2p.server.receiveHandler|deref|client.send", "after:client == nil", .safe "requests on n.replying are the node's own Reply calls; nil-checked all the same"⟩,
-  ⟨"p2p.server.receiveHandler|mapwrite|clients[string(c.remoteID)]", "", .safe "map created by make in the same function or in the constructor"⟩,
-  ⟨"p2p.server.receiveHandler|mapzero|clients[string(id)]", "", .safe "nil-checked"⟩,
-  ⟨"p2p.server.receiveHandler|mapzero|clients[string(req.id)]", "", .safe "nil-checked"⟩,
+  ⟨"p2p.server.receiveHandler|deref|client.send", "after:client == nil", .guarded⟩,
+  ⟨"p2p.server.receiveHandler|mapwrite|clients[string(c.remoteID)]", "made:clients", .guarded⟩,
+  ⟨"p2p.server.receiveHandler|mapzero|clients[string(id)]", "read", .guarded⟩,
+  ⟨"p2p.server.receiveHandler|mapzero|clients[string(req.id)]", "read", .guarded⟩,
   ⟨"share.NewPriPoly|index|coeffs[0]", "", .safe "t ≥ 2: NewDealer checks validT before NewPriPoly"⟩,
   ⟨"share.NewPriPoly|index|coeffs[0]#2", "", .safe "t ≥ 2: NewDealer checks validT before NewPriPoly"⟩,
   ⟨"share.NewPriPoly|index|coeffs[0]#3", "", .safe "t ≥ 2: NewDealer checks validT before NewPriPoly"⟩,
   ⟨"share.NewPriPoly|index|coeffs[i]", "for:i < t", .safe "index bounded by the enclosing loop condition / range"⟩,
   ⟨"share.NewPriPoly|make|make([]kyber.Scalar, t)", "", .safe "t ≥ 2: NewDealer checks validT before NewPriPoly"⟩,
-  ⟨"share.PriPoly.Commit|index|commits[i]", "range:commits", .safe "index bounded by the enclosing loop condition / range"⟩,
+  ⟨"share.PriPoly.Commit|index|commits[i]", "range:commits", .guarded⟩,
   ⟨"share.PriPoly.Commit|index|p.coeffs[i]", "", .safe "commits made with len(p.coeffs)"⟩,
   ⟨"share.PriPoly.Commit|make|make([]kyber.Point, p.Threshold())", "", .safe "a length"⟩,
   ⟨"share.PriPoly.Eval|index|p.coeffs[j]", "for:j >= 0", .safe "index bounded by the enclosing loop condition / range"⟩,
-  ⟨"share.PubPoly.Add|index|commits[i]", "range:commits", .safe "index bounded by the enclosing loop condition / range"⟩,
+  ⟨"share.PubPoly.Add|index|commits[i]", "range:commits", .guarded⟩,
   ⟨"share.PubPoly.Add|index|p.commits[i]", "", .safe "commits made with p.Threshold(); q has the same threshold (checked)"⟩,
   ⟨"share.PubPoly.Add|index|q.commits[i]", "", .safe "commits made with p.Threshold(); q has the same threshold (checked)"⟩,
   ⟨"share.PubPoly.Add|make|make([]kyber.Point, p.Threshold())", "after:p.g.String() != q.g.String(); after:p.Threshold() != q.Threshold()", .safe "a length"⟩,
   ⟨"share.PubPoly.Commit|index|p.commits[0]", "", .safe "the group polynomial sums the QUAL deals, which include the own deal with t ≥ 2 commitments; PubPoly.Add rejects different lengths"⟩,
   ⟨"share.PubPoly.Eval|index|p.commits[j]", "for:j >= 0", .safe "index bounded by the enclosing loop condition / range"⟩,
   ⟨"share.RecoverCommit|callpanics|num.Div(num, den)", "", .cross "tbls.Recover" "dup || i >= n" "recoverDedup"⟩,
-  ⟨"share.RecoverCommit|deref|s.I", "or:s == nil || s.V == nil", .safe "identifier the function compares with nil; that comparison dominates this use"⟩,
-  ⟨"share.RecoverCommit|deref|s.I#2", "or:s == nil || s.V == nil || s.I < 0", .safe "identifier the function compares with nil; that comparison dominates this use"⟩,
-  ⟨"share.RecoverCommit|deref|s.I#3", "after:s == nil || s.V == nil || s.I < 0 || n <= s.I", .safe "identifier the function compares with nil; that comparison dominates this use"⟩,
+  ⟨"share.RecoverCommit|deref|s.I", "or:s == nil || s.V == nil", .guarded⟩,
+  ⟨"share.RecoverCommit|deref|s.I#2", "or:s == nil || s.V == nil || s.I < 0", .guarded⟩,
+  ⟨"share.RecoverCommit|deref|s.I#3", "after:s == nil || s.V == nil || s.I < 0 || n <= s.I", .guarded⟩,
   ⟨"share.RecoverCommit|ifacenil|shares[i].V", "", .safe "entries with V == nil are not put into x"⟩,
   ⟨"share.RecoverCommit|index|shares[i]", "", .safe "i ranges over keys of x, which are positions of shares"⟩,
-  ⟨"share.RecoverCommit|mapwrite|x[i]", "", .safe "map created by make in the same function or in the constructor"⟩,
+  ⟨"share.RecoverCommit|mapwrite|x[i]", "made:x", .guarded⟩,
   ⟨"tbls.Recover|ifacenil|public.Eval(i).V", "", .safe "Eval always returns a point"⟩,
-  ⟨"tbls.Recover|mapwrite|seen[i]", "", .safe "map created by make in the same function or in the constructor"⟩,
+  ⟨"tbls.Recover|mapwrite|seen[i]", "made:seen", .guarded⟩,
   ⟨"tbls.SigShare.Value|deref|*s", "", .safe "receiver is the address of a local"⟩,
   ⟨"tbls.SigShare.Value|slice|[]byte(*s)[2:]", "", .cross "tbls.Recover" "err != nil" "sigIdxLen"⟩,
   ⟨"tbls.sliceUniqMap|index|s[j]", "", .safe "j ≤ position of v in s"⟩,
-  ⟨"tbls.sliceUniqMap|mapwrite|seen[string(v)]", "", .safe "map created by make in the same function or in the constructor"⟩,
+  ⟨"tbls.sliceUniqMap|mapwrite|seen[string(v)]", "made:seen", .guarded⟩,
   ⟨"tbls.sliceUniqMap|slice|s[:j]", "", .safe "j ≤ len(s)"⟩,
   ⟨"vss.Deal.UnmarshalBinary|index|constructors[reflect.TypeOf(&point).Elem()]", "", .safe "write into the map made one line above"⟩,
   ⟨"vss.Deal.UnmarshalBinary|index|constructors[reflect.TypeOf(&secret).Elem()]", "", .safe "write into the map made one line above"⟩,
@@ -266,10 +282,10 @@ def table : List Entry := [
   ⟨"vss.Verifier.ProcessEncryptedDeal|deref|d.SecShare.V", "or:d.SecShare == nil", .flag "secShareNil"⟩,
   ⟨"vss.Verifier.decryptDeal|callpanics|gcm.Open(nil, e.Nonce, e.Cipher, v.hkdfContext)", "after:len(e.Nonce) != gcm.NonceSize()", .flag "nonceLen"⟩,
   ⟨"vss.Verifier.decryptDeal|deref|e.DHKey", "after:e == nil", .flag "encNil"⟩,
-  ⟨"vss.aggregator.DealCertified|deref|a.EnoughApprovals", "after:a == nil", .safe "identifier the function compares with nil; that comparison dominates this use"⟩,
-  ⟨"vss.aggregator.DealCertified|deref|a.badDealer", "after:a == nil", .safe "identifier the function compares with nil; that comparison dominates this use"⟩,
-  ⟨"vss.aggregator.DealCertified|deref|a.responses", "after:a == nil", .safe "identifier the function compares with nil; that comparison dominates this use"⟩,
-  ⟨"vss.aggregator.DealCertified|deref|a.verifiers", "after:a == nil", .safe "identifier the function compares with nil; that comparison dominates this use"⟩,
+  ⟨"vss.aggregator.DealCertified|deref|a.EnoughApprovals", "after:a == nil", .guarded⟩,
+  ⟨"vss.aggregator.DealCertified|deref|a.badDealer", "after:a == nil", .guarded⟩,
+  ⟨"vss.aggregator.DealCertified|deref|a.responses", "after:a == nil", .guarded⟩,
+  ⟨"vss.aggregator.DealCertified|deref|a.verifiers", "after:a == nil", .guarded⟩,
   ⟨"vss.aggregator.VerifyDeal|deref|d.SecShare", "or:d == nil", .flag "shareVNil"⟩,
   ⟨"vss.aggregator.VerifyDeal|deref|d.SecShare.V", "or:d == nil || d.SecShare == nil", .flag "shareVNil"⟩,
   ⟨"vss.aggregator.VerifyDeal|ifacenil|fi.V", "after:d == nil || d.SecShare == nil || d.SecShare.V == nil", .flag "shareVNil"⟩,
@@ -277,7 +293,7 @@ def table : List Entry := [
   ⟨"vss.aggregator.addResponse|deref|r.Index", "", .safe "callers pass a response that passed verifyResponse or one they just built"⟩,
   ⟨"vss.aggregator.addResponse|mapwrite|a.responses[r.Index]", "", .safe "map created by make in the same function or in the constructor"⟩,
   ⟨"vss.aggregator.verifyJustification|deref|j.Index", "", .safe "own justification built by Dealer.ProcessResponse"⟩,
-  ⟨"vss.aggregator.verifyJustification|mapzero|a.responses[j.Index]", "ok", .safe "comma-ok"⟩,
+  ⟨"vss.aggregator.verifyJustification|mapzero|a.responses[j.Index]", "ok", .guarded⟩,
   ⟨"vss.aggregator.verifyResponse|deref|r.SessionID", "", .cross "dkg.DistKeyGenerator.ProcessResponse" "resp == nil || resp.Response == nil" "respNil"⟩,
   ⟨"vss.findPub|index|verifiers[iidx]", "after:iidx >= len(verifiers)", .flag "findPubVss"⟩,
   ⟨"vss.newAEAD|make|make([]byte, sharedKeyLength)", "", .safe "package constant 32"⟩,
@@ -313,7 +329,7 @@ def flagOn (name : String) : Bool :=
 
 /-- the guard configuration of the code as it is now -/
 def Cfg.current : Cfg :=
-  { xpubCastSelf := flagOn "xpubCastSelf", xpubCastPeer := flagOn "xpubCastPeer", gdkgGuard := flagOn "gdkgGuard",
+  { xpubCastSelf := flagOn "xpubCastSelf", xpubCastPeer := flagOn "xpubCastPeer", xpubIdx := flagOn "xpubIdx", gdkgGuard := flagOn "gdkgGuard",
     dealsDkgNil := flagOn "dealsDkgNil", dealsCast := flagOn "dealsCast", respsDkgNil := flagOn "respsDkgNil",
     respsCast := flagOn "respsCast", findPubDkg := flagOn "findPubDkg", respNil := flagOn "respNil",
     respVerOk := flagOn "respVerOk", pubKeyLen := flagOn "pubKeyLen", peerRespNil := flagOn "peerRespNil", encNil := flagOn "encNil",
@@ -332,6 +348,21 @@ def invDiff : List String :=
   let reg := Gen.PanicSites.sites.filter (fun s => table.any (fun e => e.key == s.key && e.guard != s.guard))
   new.map (fun s => "+" ++ s.key) ++ gone.map (fun e => "-" ++ e.key) ++ reg.map (fun s => "~" ++ s.key)
     ++ Gen.PanicSites.unlisted.map (fun u => "?" ++ u)
+
+/-- guard classes that are sufficient, by themselves, for a site of the kind they were extracted for -/
+def checkableCls : List String := ["nil", "len", "ok", "read", "defer-made", "made"]
+
+/-- every `.guarded` entry has, in the regenerated inventory, a guard of a sufficient class -/
+def guardedOK : Bool :=
+  table.all (fun e => match e.clause with
+    | .guarded => Gen.PanicSites.sites.any (fun s => s.key == e.key && s.guard == e.guard && checkableCls.contains s.cls)
+    | _ => true)
+
+/-- (modelled or flagged, safe by extracted guard, safe by prose argument) -/
+def classCounts : Nat × Nat × Nat :=
+  (table.countP (fun e => match e.clause with | .flag _ | .cross _ _ _ | .model _ => true | _ => false),
+   table.countP (fun e => match e.clause with | .guarded => true | _ => false),
+   table.countP (fun e => match e.clause with | .safe _ => true | _ => false))
 
 def pairsGen : List (String × String) := Gen.PanicSites.sites.map (fun s => (s.key, s.guard))
 def pairsTable : List (String × String) := table.map (fun e => (e.key, e.guard))
